@@ -14,6 +14,7 @@ import (
 	"go/constant"
 	"go/token"
 	"go/types"
+	"sort"
 
 	"golang.org/x/tools/go/ssa"
 )
@@ -27,6 +28,27 @@ type iAddr struct {
 type iSlice struct {
 	arr      *iArr
 	lo, high int
+}
+
+// iMap is a map built during the evaluation (constant keys only).
+type iMap struct {
+	keys []string // insertion order
+	vals map[string]any
+	kval map[string]constant.Value
+}
+
+type iIter struct {
+	mp   *iMap
+	keys []string
+	pos  int
+}
+
+func mapKey(k any) (string, constant.Value, bool) {
+	c, ok := k.(constant.Value)
+	if !ok {
+		return "", nil, false
+	}
+	return c.ExactString(), c, true
 }
 
 type Interp struct {
@@ -44,6 +66,8 @@ type Interp struct {
 
 	// instr is invoked for every instruction executed (observation only).
 	instr func(in ssa.Instruction, depth int)
+
+	globals map[*ssa.Global]any // package-level variables written during the evaluation (package initialisers)
 
 	dirty   bool
 	stopped bool
@@ -66,6 +90,26 @@ func (ip *Interp) Run(fn *ssa.Function, args []any) (any, bool) {
 	ip.stuck = ""
 	ip.lost = nil
 	return ip.run(fn, args, 0)
+}
+
+// zeroOf: the zero value of a lookup's element type when it is a basic type (nil otherwise).
+func zeroOf(t types.Type, commaOk bool) any {
+	if commaOk {
+		if tup, ok := t.(*types.Tuple); ok && tup.Len() > 0 {
+			t = tup.At(0).Type()
+		}
+	}
+	if b, ok := t.Underlying().(*types.Basic); ok {
+		switch {
+		case b.Info()&types.IsBoolean != 0:
+			return constant.MakeBool(false)
+		case b.Info()&types.IsInteger != 0:
+			return constant.MakeInt64(0)
+		case b.Info()&types.IsString != 0:
+			return constant.MakeString("")
+		}
+	}
+	return nil
 }
 
 func (ip *Interp) run(fn *ssa.Function, args []any, depth int) (any, bool) {
@@ -107,6 +151,19 @@ func (ip *Interp) run(fn *ssa.Function, args []any, depth int) (any, bool) {
 				}
 			}
 			return nil, false
+		}
+		if g, ok := v.(*ssa.Global); ok && ip.globals != nil {
+			// the address of a package-level variable: arrays are element-addressable, everything else is one cell
+			cell, have := ip.globals[g].(*iArr)
+			if !have {
+				n := 1
+				if at, isArr := g.Type().Underlying().(*types.Pointer).Elem().Underlying().(*types.Array); isArr && at.Len() <= 1024 {
+					n = int(at.Len())
+				}
+				cell = &iArr{elems: make([]any, n)}
+				ip.globals[g] = cell
+			}
+			return iAddr{cell, -1}, true
 		}
 		x, ok := env[v]
 		return x, ok && x != nil
@@ -167,9 +224,15 @@ func (ip *Interp) run(fn *ssa.Function, args []any, depth int) (any, bool) {
 				case token.MUL:
 					// a load
 					if a, ok := get(x.X); ok {
-						if ad, isA := a.(iAddr); isA && ad.idx < len(ad.arr.elems) && ad.arr.elems[ad.idx] != nil {
-							env[x] = ad.arr.elems[ad.idx]
-							continue
+						if ad, isA := a.(iAddr); isA {
+							i := ad.idx
+							if i == -1 && len(ad.arr.elems) == 1 {
+								i = 0 // the address of a scalar local
+							}
+							if i >= 0 && i < len(ad.arr.elems) && ad.arr.elems[i] != nil {
+								env[x] = ad.arr.elems[i]
+								continue
+							}
 						}
 					}
 					if al, isAl := x.X.(*ssa.Alloc); isAl {
@@ -251,7 +314,51 @@ func (ip *Interp) run(fn *ssa.Function, args []any, depth int) (any, bool) {
 					continue
 				}
 				ip.dirty = true
-			case *ssa.MapUpdate, *ssa.Send, *ssa.Go, *ssa.Defer, *ssa.RunDefers, *ssa.Panic:
+			case *ssa.MakeMap:
+				env[x] = &iMap{vals: map[string]any{}, kval: map[string]constant.Value{}}
+			case *ssa.MapUpdate:
+				if mv, ok := get(x.Map); ok {
+					if mp, isM := mv.(*iMap); isM {
+						k, _ := get(x.Key)
+						if ks, kc, okk := mapKey(k); okk {
+							if _, had := mp.vals[ks]; !had {
+								mp.keys = append(mp.keys, ks)
+							}
+							v, _ := get(x.Value)
+							mp.vals[ks] = v
+							mp.kval[ks] = kc
+							continue
+						}
+						mp.vals = nil // a non-constant key: contents unknown from here on
+						continue
+					}
+				}
+				ip.dirty = true
+			case *ssa.Range:
+				if mv, ok := get(x.X); ok {
+					if mp, isM := mv.(*iMap); isM && mp.vals != nil {
+						ks := append([]string{}, mp.keys...)
+						sort.Strings(ks)
+						env[x] = &iIter{mp: mp, keys: ks}
+						continue
+					}
+				}
+				delete(env, x)
+			case *ssa.Next:
+				if iv, ok := get(x.Iter); ok {
+					if it, isI := iv.(*iIter); isI {
+						if it.pos < len(it.keys) {
+							k := it.keys[it.pos]
+							it.pos++
+							env[x] = iTuple{constant.MakeBool(true), it.mp.kval[k], it.mp.vals[k]}
+						} else {
+							env[x] = iTuple{constant.MakeBool(false), nil, nil}
+						}
+						continue
+					}
+				}
+				delete(env, x)
+			case *ssa.Send, *ssa.Go, *ssa.Defer, *ssa.RunDefers, *ssa.Panic:
 				ip.dirty = true
 				if _, isP := x.(*ssa.Panic); isP {
 					return nil, false
@@ -270,7 +377,7 @@ func (ip *Interp) run(fn *ssa.Function, args []any, depth int) (any, bool) {
 				} else {
 					delete(env, x)
 				}
-			case *ssa.FieldAddr, *ssa.Field, *ssa.MakeClosure, *ssa.MakeSlice, *ssa.MakeMap, *ssa.TypeAssert, *ssa.Index, *ssa.Range, *ssa.Next, *ssa.SliceToArrayPointer, *ssa.MakeChan, *ssa.Select:
+			case *ssa.FieldAddr, *ssa.Field, *ssa.MakeClosure, *ssa.MakeSlice, *ssa.TypeAssert, *ssa.Index, *ssa.SliceToArrayPointer, *ssa.MakeChan, *ssa.Select:
 				delete(env, x.(ssa.Value))
 			case *ssa.DebugRef:
 			case *ssa.Convert:
@@ -296,6 +403,27 @@ func (ip *Interp) run(fn *ssa.Function, args []any, depth int) (any, bool) {
 			case *ssa.Lookup:
 				key, kok := get(x.Index)
 				done := false
+				if mv, ok := get(x.X); ok && kok {
+					if mp, isM := mv.(*iMap); isM && mp.vals != nil {
+						if ks, _, okk := mapKey(key); okk {
+							val, present := mp.vals[ks]
+							if !present {
+								val = zeroOf(x.Type(), x.CommaOk)
+							}
+							if x.CommaOk {
+								env[x] = iTuple{val, constant.MakeBool(present)}
+							} else if val != nil {
+								env[x] = val
+							} else {
+								delete(env, x)
+							}
+							done = true
+						}
+					}
+				}
+				if done {
+					continue
+				}
 				if kok && ip.lookup != nil {
 					if val, present, ok := ip.lookup(x, key); ok {
 						if x.CommaOk {
@@ -347,6 +475,11 @@ func (ip *Interp) run(fn *ssa.Function, args []any, depth int) (any, bool) {
 						case iSlice:
 							env[x] = constant.MakeInt64(int64(a.high - a.lo))
 							continue
+						case *iMap:
+							if a.vals != nil {
+								env[x] = constant.MakeInt64(int64(len(a.vals)))
+								continue
+							}
 						case constant.Value:
 							if a.Kind() == constant.String {
 								env[x] = constant.MakeInt64(int64(len(constant.StringVal(a))))
@@ -552,4 +685,75 @@ func foldAny(op token.Token, l, r any) (any, bool) {
 		eq = !eq
 	}
 	return constant.MakeBool(eq), true
+}
+
+// evalGlobals evaluates the initialiser of a module package (its synthetic init function) and returns the
+// package-level variables it builds from constants: map literals, array literals, tables derived from other
+// tables by a helper function. Results are cached. ok=false for a variable means "not computable".
+func (m *Model) evalGlobals(pkgShort string) map[string]any {
+	if m.globalTabs == nil {
+		m.globalTabs = map[string]map[string]any{}
+	}
+	if r, ok := m.globalTabs[pkgShort]; ok {
+		return r
+	}
+	out := map[string]any{}
+	m.globalTabs[pkgShort] = out
+	sp := m.SSA[fullPkg(pkgShort)]
+	if sp == nil {
+		return out
+	}
+	initFn := sp.Func("init")
+	if initFn == nil {
+		return out
+	}
+	ip := &Interp{m: m, globals: map[*ssa.Global]any{}}
+	ip.load = func(v *ssa.UnOp, dirty bool) (any, bool) {
+		if g, ok := v.X.(*ssa.Global); ok && g.Name() == "init$guard" {
+			return constant.MakeBool(false), true
+		}
+		return nil, false
+	}
+	ip.call = func(c *ssa.Call, args []any) (any, bool) {
+		if sc := c.Call.StaticCallee(); sc != nil && sc.Name() == "init" && sc != initFn {
+			return nil, true // initialisers of imported packages
+		}
+		return nil, false
+	}
+	ip.Run(initFn, nil)
+	for g, v := range ip.globals {
+		if g.Pkg != sp {
+			continue
+		}
+		cell, ok := v.(*iArr)
+		if !ok {
+			continue
+		}
+		if _, isArr := g.Type().Underlying().(*types.Pointer).Elem().Underlying().(*types.Array); isArr {
+			out[g.Name()] = cell
+		} else if len(cell.elems) == 1 && cell.elems[0] != nil {
+			out[g.Name()] = cell.elems[0]
+		}
+	}
+	return out
+}
+
+// globalStringIntMap: a package-level map[string]<integer type> evaluated from the initialiser.
+func (m *Model) globalStringIntMap(pkgShort, name string) (map[string]int64, bool) {
+	v, ok := m.evalGlobals(pkgShort)[name]
+	mp, isM := v.(*iMap)
+	if !ok || !isM || mp.vals == nil {
+		return nil, false
+	}
+	out := map[string]int64{}
+	for ks, val := range mp.vals {
+		kc := mp.kval[ks]
+		vc, isC := val.(constant.Value)
+		if kc == nil || kc.Kind() != constant.String || !isC || vc.Kind() != constant.Int {
+			return nil, false
+		}
+		i, _ := constant.Int64Val(vc)
+		out[constant.StringVal(kc)] = i
+	}
+	return out, true
 }
